@@ -384,7 +384,7 @@ fn main() {
         t: Shards::create(&args.out, "chunk", 14),
         ipc: Shards::create(&args.out, "ipccall", 6),
         ipc_cur: (0, 0),
-        ipc_limit: if thorough { 160 } else { 8 },
+        ipc_limit: if thorough { 160 } else { 20 },
         ipc_sessions: 0,
         sessions: 0,
         inputs: 0,
